@@ -2,30 +2,32 @@ package main
 
 import (
 	"fmt"
+	"os"
 
 	"golang.org/x/tools/go/ssa"
 
 	"verif/tools/load"
 	"verif/tools/model"
-	"verif/tools/pa"
 )
 
+// dbg <repo> <func> <paramIndex> <value>: branch conditions of a function with one parameter bound to a constant.
 func main() {
-	P, _ := load.Load(load.Config{Repo: "/repo"})
-	fn := P.Func(load.ModPath+"/css", "AllHandler")
+	P, err := load.Load(load.Config{Repo: os.Args[1]})
+	if err != nil {
+		fmt.Println(err)
+		return
+	}
+	model.InitConstMaps(P)
+	fn := P.Func(load.ModPath, os.Args[2])
 	A := model.NewAnalysis(fn)
+	if len(os.Args) > 4 {
+		var i int
+		fmt.Sscanf(os.Args[3], "%d", &i)
+		A.BindConst(fn.Params[i], os.Args[4])
+	}
 	for _, b := range fn.Blocks {
 		if ifi, ok := b.Instrs[len(b.Instrs)-1].(*ssa.If); ok {
-			A.Cond(ifi.Cond)
-		}
-		if r, ok := b.Instrs[len(b.Instrs)-1].(*ssa.Return); ok {
-			fmt.Println("ret:", A.Str(A.Cond(r.Results[0])))
-		}
-	}
-	for i, at := range A.Atoms {
-		fmt.Println(i, at.Kind, at.Key)
-		if cl, ok := at.X.(*ssa.Call); ok {
-			fmt.Println("   callee", pa.CalleeName(cl.Common().StaticCallee()))
+			fmt.Printf("b%d -> b%d / b%d : %s\n", b.Index, b.Succs[0].Index, b.Succs[1].Index, A.Str(A.Cond(ifi.Cond)))
 		}
 	}
 }
